@@ -205,8 +205,34 @@ class Run(object):
     def thorough(self):
         return self.tier == "thorough"
 
-    def pmap(self, fn, items, serial=False):
+    def pmap(self, fn, items, serial=False, order_independent=False):
+        """order_independent=True declares that the cases do not depend on one another; in the thorough tier (or with VERIF_ORDER_PASS=1) they are then executed a
+        second time in REVERSED order in fresh worker processes and the two passes must agree on the outcome histogram and on the set of violation keys: state
+        that an earlier case leaves behind in the library (a cache, a table, a reused object) shows as a difference even where no single oracle clause sees it."""
+        items = items if isinstance(items, list) else list(items)
+        before_outcomes = collections.Counter(self.part.outcomes)
+        before_keys = set(self.part.violations)
         pmap(self.prop, fn, items, self.part, serial=serial)
+        if not order_independent or not (self.thorough or os.environ.get("VERIF_ORDER_PASS") == "1") or len(items) < 2:
+            return
+        keep_results = self.part.results
+        fwd_outcomes = collections.Counter(self.part.outcomes)
+        fwd_outcomes.subtract(before_outcomes)
+        fwd_keys = set(self.part.violations) - before_keys
+        rev = Part()
+        pmap(self.prop, fn, items[::-1], rev, serial=serial)
+        self.extra.setdefault("order_passes", []).append({"items": len(items), "reversed_evaluations": rev.evaluations})
+        self.part.transitions += rev.transitions
+        self.part.evaluations += rev.evaluations
+        diff = {k: [fwd_outcomes.get(k, 0), rev.outcomes.get(k, 0)] for k in set(fwd_outcomes) | set(rev.outcomes) if fwd_outcomes.get(k, 0) != rev.outcomes.get(k, 0)}
+        kdiff = sorted(fwd_keys ^ (set(rev.violations) - before_keys))
+        for k, v in rev.violations.items():
+            if k not in self.part.violations:
+                self.part.violations[k] = dict(v)
+        if diff or kdiff:
+            self.part.violation("%s/order-dependent-outcomes" % self.prop, "the same independent cases give different outcomes when they are executed in the reversed order (state left behind between calls)",
+                                {"kind": "order-pass", "items": len(items)}, "identical outcome histograms and violation keys", {"outcomes[forward, reversed]": diff, "keys_only_in_one_pass": kdiff[:10]})
+        self.part.results = keep_results
 
     def bfs(self, initial, expand, depth, on_level=None):
         """Level-synchronous explicit-state search. `initial`: list of (canon, item). expand(item, part) -> list of (canon, item')
